@@ -215,10 +215,17 @@ impl ChemicalCompositionMap<'_> {
     /// be faster as it skips element specification parsing and
     /// [`PeriodicTable`](crate::PeriodicTable) lookup.
     pub fn get_str(&self, elt: &str) -> i32 {
-        match self.composition.get(elt) {
-            Some(c) => *c,
+        match Self::plain_key(elt) {
+            Some(key) => self.composition.get(&key).copied().unwrap_or(0),
             None => 0,
         }
+    }
+
+    /// The isotope-free key named by a bare element symbol, if there is such an element.
+    fn plain_key(elt: &str) -> Option<ElementSpecification<'static>> {
+        crate::PERIODIC_TABLE
+            .get(elt)
+            .map(|element| ElementSpecification::new(element, 0))
     }
 
     /**
@@ -237,7 +244,8 @@ impl ChemicalCompositionMap<'_> {
     */
     pub fn get_str_mut(&mut self, elt: &str) -> Option<&mut i32> {
         self.mass_cache = None;
-        self.composition.get_mut(elt)
+        let key = Self::plain_key(elt)?;
+        self.composition.get_mut(&key)
     }
 
     /// Increment of quantity of an element by its symbol string,
@@ -280,7 +288,10 @@ impl Index<&str> for ChemicalCompositionMap<'_> {
     #[inline]
     fn index(&self, key: &str) -> &Self::Output {
         match ElementSpecification::quick_check_str(key) {
-            ElementSpecificationLike::Yes => self.composition.get(key).unwrap_or(&ZERO),
+            ElementSpecificationLike::Yes => match Self::plain_key(key) {
+                Some(spec) => self.composition.get(&spec).unwrap_or(&ZERO),
+                None => &ZERO,
+            },
             ElementSpecificationLike::No => &ZERO,
             ElementSpecificationLike::Maybe => {
                 let spec = key.parse::<ElementSpecification>();
